@@ -54,6 +54,9 @@ type icache struct {
 
 func (i *icache) set(k string, v Account) {
 	cpy := v
+	// the key usually aliases a request buffer that Fiber reuses; a map key
+	// whose bytes change later makes lookups hit another account's entry
+	k = strings.Clone(k)
 	i.Lock()
 	i.items[k] = item{
 		exp:   time.Now().Add(i.expire),
@@ -83,7 +86,9 @@ func (i *icache) update(k string, props MutableProps) {
 		// refresh the expiration date
 		item.exp = time.Now().Add(i.expire)
 
-		i.items[k] = item
+		// the assignment also replaces the stored key by k, which aliases
+		// the request buffer: store a copy
+		i.items[strings.Clone(k)] = item
 	}
 }
 
